@@ -9,6 +9,7 @@ import GrogModel.Lemmas.WalkerLive
 import GrogModel.Lemmas.WalkerMeasure
 import GrogModel.Lemmas.WalkerExamples
 import GrogModel.Lemmas.Pool
+import GrogModel.Props.C05
 namespace Grog.C18
 open Grog.Walker
 
@@ -38,13 +39,20 @@ theorem pool_ctx_stays_cancelled {p p' : Pool.State} {e : Pool.Ev} (h : Pool.ste
   cases e <;> simp only [Pool.step] at h <;> (repeat' split at h) <;> simp at h <;>
     (try subst h) <;> (first | exact hc | rfl)
 
-/-- A target whose command was ended by the cancellation reports `cancelled` (not a failure) and
-    writes no target result: nothing is cached for an interrupted target. -/
-theorem interrupted_not_cached (i : Pool.TailIn) (h : i.cmd = .cancelled) :
-    (Pool.execTail i).res = .cancelled ∧ (Pool.execTail i).resultWritten = false := by
-  simp [Pool.execTail, h]
+/-- A target interrupted at ANY stage of its task — the command, the re-run of the output checks, the write of the outputs, the
+    write of the result record; each returns an error wrapping `context.Canceled` — reports `cancelled` (not a failure) and
+    writes no target result: nothing is cached for an interrupted target. (Case analysis of the table `Pool.execTail`; the build
+    model's statement is `C05.failed_step_stores_nothing`. With a remote cache tier the record may already be in the local tier
+    when the interrupt hits the remote write: design_notes/C05.md.) -/
+theorem interrupted_not_cached (i : Pool.TailIn) :
+    (i.cmd = .cancelled → (Pool.execTail i).res = .cancelled) ∧
+    ((Pool.execTail i).res = .cancelled → (Pool.execTail i).resultWritten = false ∧
+      (i.cmd = .cancelled ∨ i.recheck = .cancelled ∨ i.writeOutputs = .cancelled ∨ i.resultWrite = .cancelled)) := by
+  obtain ⟨cmd, a, b, d, e⟩ := i
+  cases cmd <;> cases a <;> cases b <;> cases d <;> cases e <;> decide
 
-example : (Pool.execTail ⟨.cancelled, true, true, true, true⟩) = ⟨.cancelled, false⟩ := by decide
+example : (Pool.execTail ⟨.cancelled, .ok, true, .ok, .ok⟩) = ⟨.cancelled, false⟩ := by decide
+example : (Pool.execTail ⟨.ok, .ok, true, .ok, .cancelled⟩) = ⟨.cancelled, false⟩ := by decide
 
 /-- in the walker such a node gets no completion: `aborted` is absorbing, so the node never appears
     as `ok` or `failed` in the completion map -/
@@ -68,6 +76,71 @@ theorem events_after_cancel_bounded {c : Cfg} {s s' : State} (tr : List Ev)
     (h : run c s tr = some s') : tr.length ≤ measure c s := by
   have := run_length_le tr h
   omega
+
+/-- `retErr` is written by the return of `Walk` only -/
+theorem retErr_only_by_return {c : Cfg} {s s' : State} {e : Ev} (hs : step c s e = some s') (hne : ∀ b, e ≠ .walkReturn b) :
+    s'.retErr = s.retErr := by
+  cases e with
+  | wake n => obtain ⟨_, _, _, rfl⟩ := step_wake.mp hs; rfl
+  | cbReturn n r =>
+    obtain ⟨_, _, hh⟩ := step_cbReturn.mp hs
+    rcases hh with ⟨_, rfl⟩ | ⟨_, rfl⟩ | ⟨_, _, rfl⟩ | ⟨_, _, rfl⟩ <;> rfl
+  | complete n =>
+    obtain ⟨_, hh⟩ := step_complete.mp hs
+    rcases hh with ⟨_, rfl⟩ | ⟨_, rfl⟩
+    · unfold completeOk; split <;> rfl
+    · unfold completeFail; split
+      · rfl
+      · split <;> rfl
+  | exit n => obtain ⟨_, _, _, rfl⟩ := step_exit.mp hs; rfl
+  | deliverCancel n => obtain ⟨_, _, rfl⟩ := step_deliverCancel.mp hs; rfl
+  | ctxCancel => obtain ⟨_, rfl⟩ := step_ctxCancel.mp hs; rfl
+  | walkReturn b => exact absurd rfl (hne b)
+
+/-- **Stability**: the return stays enabled until it is taken. Under a cancelled context, as long as `Walk` has not returned, no
+    other event — a callback returning, a completion, a routine exiting, a cancel delivery — disables it: the context stays
+    cancelled and `retErr` stays empty, so `walk_returns` applies again in the next state. -/
+theorem return_stays_enabled {c : Cfg} {s s' : State} {e : Ev} (hc : s.ctx = true) (hr : s.retErr = none)
+    (hs : step c s e = some s') (hne : ∀ b, e ≠ .walkReturn b) :
+    s'.ctx = true ∧ s'.retErr = none ∧ (step c s' (.walkReturn true)).isSome = true := by
+  have h1 : s'.ctx = true := C05.ctx_stays_cancelled hs hc
+  have h2 : s'.retErr = none := by rw [retErr_only_by_return hs hne]; exact hr
+  obtain ⟨s'', h3, _⟩ := walk_returns (c := c) h1 h2
+  exact ⟨h1, h2, by rw [h3]; rfl⟩
+
+/-- **Inevitability** (no fairness assumption): from a reachable state with a cancelled context and `Walk` not yet returned, EVERY
+    run that goes on until nothing is enabled contains the return of `Walk`, and it has at most `measure c s` events — because every
+    event decreases the measure (`C04.terminates`) and a state without enabled events has `Walk` returned (`C04.stuck_all_terminal`).
+    The only progress assumed is the one C04 names: entered callbacks return (a run cannot stop while a `cbReturn` is enabled).
+    Events, not seconds: the latency bound is measured on the CLI. -/
+theorem return_inevitable {c : Cfg} {s s' : State} (ok : CfgOK c) (h : Reach c s) (hr : s.retErr = none)
+    (tr : List Ev) (hrun : run c s tr = some s') (q : Quiescent c s') :
+    (∃ b, Ev.walkReturn b ∈ tr) ∧ tr.length ≤ measure c s := by
+  refine ⟨?_, by have := run_length_le tr hrun; omega⟩
+  have hreach : Reach c s' := Ex.reach_of_run tr h hrun
+  have hfin := (quiescent_final ok (reach_inv ok hreach) q).1
+  refine Classical.byContradiction fun hno => ?_
+  have hkeep : ∀ (tr : List Ev) (s s' : State), run c s tr = some s' → (∀ b, Ev.walkReturn b ∉ tr) → s'.retErr = s.retErr := by
+    intro tr
+    induction tr with
+    | nil => intro s s' h _; simp [run] at h; rw [h]
+    | cons e es ih =>
+      intro s s' h hn
+      simp only [run] at h
+      cases hst : step c s e with
+      | none => simp [hst] at h
+      | some s1 =>
+        simp only [hst] at h
+        rw [ih s1 s' h (fun b hb => hn b (by simp [hb]))]
+        exact retErr_only_by_return hst (fun b hb => hn b (by simp [hb]))
+  have := hkeep tr s s' hrun (fun b hb => hno ⟨b, hb⟩)
+  rw [this, hr] at hfin
+  simp at hfin
+
+/-- the interrupt run on the diamond: cancelled while 1 and 2 run, continued until nothing is enabled — it contains the return -/
+example : (run (Ex.diamond false) (Ex.after (Ex.diamond false) [.wake 0, .cbReturn 0 .ok, .complete 0, .wake 1, .wake 2, .ctxCancel])
+      [.walkReturn true, .cbReturn 1 .cancelled, .cbReturn 2 .ok, .complete 2, .deliverCancel 0, .deliverCancel 3, .exit 3]).isSome = true ∧
+    (Ex.after (Ex.diamond false) [.wake 0, .cbReturn 0 .ok, .complete 0, .wake 1, .wake 2, .ctxCancel]).retErr = none := by decide
 
 /-- returning through the cancellation schedules the cancellation of every routine, so every parked
     routine can exit (none is left waiting for a dependency) -/
@@ -107,6 +180,15 @@ example : exitNonZero (Ex.chain2 false)
     (step (Ex.chain2 false) (Ex.after (Ex.chain2 false) [.wake 0, .ctxCancel, .cbReturn 0 .cancelled, .deliverCancel 1]) (.walkReturn false)) = none := by
   decide
 
+/-- the diamond, interrupted while 1 and 2 run; 1 aborts, 2 ignores the cancellation and finishes ok after `Walk` has returned:
+    `Walk` returned the context error, the status is non-zero, node 3 never starts -/
+example : Reach (Ex.diamond false) (Ex.after (Ex.diamond false) Ex.diamondIntRun) ∧
+    exitNonZero (Ex.diamond false) (Ex.after (Ex.diamond false) Ex.diamondIntRun) = true ∧
+    ((Ex.after (Ex.diamond false) Ex.diamondIntRun).phase 1, (Ex.after (Ex.diamond false) Ex.diamondIntRun).phase 2,
+     (Ex.after (Ex.diamond false) Ex.diamondIntRun).phase 3) = (.aborted, .ok, .parked) ∧
+    step (Ex.diamond false) (Ex.after (Ex.diamond false) Ex.diamondIntRun) (.wake 3) = none :=
+  ⟨Ex.reach_after (by decide), by decide, by decide, by decide⟩
+
 /-- Regression witness (code before 1e66bd4, found by the statement review and reproduced by the check on the real
     `Walk`: 8 of 120000 walks under a pre-cancelled context): one selected node, the context is cancelled, the callback
     reports the cancellation, all routines are done — the old `done` branch returned without an error and without a failed
@@ -126,14 +208,16 @@ theorem interrupted_walk_finishes {c : Cfg} {s : State} (ok : CfgOK c) (h : Reac
 example : (run (Ex.chain2 false) (init (Ex.chain2 false)) Ex.intRun).isSome = true := by decide
 
 /-- Exit status over the whole life cycle of `grog build` / `grog test` / `grog run` (loading, selection, waiting for the
-    workspace lock, execution, and the run phase of `grog run`): once the context is cancelled **no** step ends the process
-    with status 0 — a cancelled load fails, the lock wait gives up with an error, `Walk` returns the context error whichever
-    branch it takes, the binary of `grog run` is refused or killed. -/
+    workspace lock, execution, the second lock wait of `grog run` in minimal mode, and the run phase of `grog run`): once the
+    context is cancelled the only step that ends the process with status 0 is the exit of a `grog run` binary that was NOT killed
+    and ended with status 0 by itself — the signal arrived after the work was complete. Everything else: a cancelled load fails, a
+    lock wait gives up with an error, `Walk` returns the context error whichever branch it takes, the binary of `grog run` is
+    refused or killed. -/
 theorem exit_nonzero_all_phases (cmd : Life.Cmd) {s s' : Life.State} {e : Life.Ev}
-    (hc : s.ctx = true) (hs : Life.step cmd s e = some s') : s'.phase ≠ .exited 0 := by
+    (hc : s.ctx = true) (hs : Life.step cmd s e = some s') (h0 : s'.phase = .exited 0) :
+    s.phase = .running ∧ e = .binExit 0 false := by
   obtain ⟨ph, cx⟩ := s
   simp only at hc; subst hc
-  intro h0
   cases e <;> simp only [Life.step] at hs
   case cancel => cases ph <;> simp at hs
   case loadDone err =>
@@ -149,16 +233,31 @@ theorem exit_nonzero_all_phases (cmd : Life.Cmd) {s s' : Life.State} {e : Life.E
       | viaCtx => simp at hs; subst hs; simp at h0
       | finished f => cases f <;> simp at hs <;> (subst hs; simp at h0)
     · simp at hs
+  case relockDone => split at hs <;> simp at hs; subst hs; simp at h0
+  case relockGaveUp => split at hs <;> simp at hs; subst hs; simp at h0
   case binStarted =>
     split at hs
     · rename_i g; simp at g
     · simp at hs
   case binRefused => split at hs <;> simp at hs; subst hs; simp at h0
-  case binExit code => split at hs <;> simp at hs; subst hs; simp at h0
+  case binExit code killed =>
+    split at hs
+    · rename_i g
+      simp at hs; subst hs
+      cases killed
+      · simp at h0
+        by_cases hcode : code = 0
+        · subst hcode; exact ⟨g.1, rfl⟩
+        · simp [hcode] at h0
+      · simp at h0
+    · simp at hs
 
 /-- the interrupted phases named by the property text, one by one -/
 example : Life.step .build ⟨.lockWait, true⟩ .lockGaveUp = some ⟨.exited 1, true⟩ := by decide
-example : Life.step .run ⟨.running, true⟩ (.binExit 0) = some ⟨.exited 1, true⟩ := by decide
+example : Life.step .run ⟨.running, true⟩ (.binExit 0 true) = some ⟨.exited 1, true⟩ := by decide
+example : Life.step .run ⟨.running, true⟩ (.binExit 0 false) = some ⟨.exited 0, true⟩ := by decide   -- the one exception
+example : Life.step .run ⟨.running, false⟩ (.binExit 0 true) = none := by decide                     -- nothing is killed without a cancel
+example : Life.step .run ⟨.relock, true⟩ .relockGaveUp = some ⟨.exited 1, true⟩ := by decide
 example : Life.step .run ⟨.starting, true⟩ .binRefused = some ⟨.exited 1, true⟩ := by decide
 example : Life.step .test ⟨.executing, true⟩ (.executed .viaCtx) = some ⟨.exited 1, true⟩ := by decide
 example : Life.step .build ⟨.executing, true⟩ (.executed (.finished false)) = some ⟨.exited 1, true⟩ := by decide
